@@ -173,6 +173,25 @@ func checkNaNHygiene(c *RuleCtx) {
 		if n == 0 {
 			c.Undecided("R10.8", vf.Name, fld+" accepting return", vf.Decl, "no `return nil`")
 		}
+		// counter caps: the clamp `C > cap => C = cap` makes a counter negative at its first increment when the cap is
+		// negative ("counters never become negative"), whether or not the component's weight is zero
+		if strings.HasSuffix(fld, "MessageDeliveriesCap") {
+			neg := AtomCmp(fld+" < 0", isF, "<", isZero)
+			le0 := AtomCmp(fld+" <= 0", isF, "<=", isZero)
+			k := 0
+			returnsIn(vf, func(r *ast.ReturnStmt) {
+				if len(r.Results) != 1 || !isNilV(p.R(vf).Val(r.Results[0])) {
+					return
+				}
+				k++
+				ok, why := p.DomAny(vf, r, AtomWant{neg, false}, AtomWant{le0, false}, AtomWant{zero, true})
+				suffix := ""
+				if k > 1 {
+					suffix = "#" + itoa(k)
+				}
+				c.Check(ok, "R10.8", vf.Name, fld+" accepted only if not negative"+suffix, r, why, "parameters can be accepted with a negative "+fld+": the clamp against the cap then sets the counter to that negative value at its first increment: "+why)
+			})
+		}
 		if why, isDecay := decays[fld]; isDecay {
 			le0 := AtomCmp(fld+" <= 0", isF, "<=", isZero)
 			ge1 := AtomCmp(fld+" >= 1", isF, ">=", func(v *V) bool {
@@ -294,4 +313,157 @@ func checkIPListDistinct(c *RuleCtx) {
 		c.Check(len(rs) == 1, "R10.9", cf.Name, "colocation term sums over the peer's address list", cf.Decl, "one loop over pstats.ips", "ipColocationFactor no longer ranges over pstats.ips (rule premise changed)")
 	}
 	c.Min["R10.9"] = 2
+}
+
+// R10.10 one delivery of a message per peer: every peer credited for a message (markFirstMessageDelivery,
+// markDuplicateMessageDelivery called from the delivery/duplicate tracer hooks) is on record in the message's
+// delivery record — it is taken from the record (range over drec.peers) or inserted into it on every path through
+// the crediting call — because DuplicateMessage decides "already counted" by looking the sender up there.
+func checkCreditedPeersRecorded(c *RuleCtx) {
+	p := c.P
+	n := 0
+	for _, fname := range []string{"(*peerScore).DeliverMessage", "(*peerScore).DuplicateMessage"} {
+		f := c.MustFn("R10.10", fname)
+		if f == nil {
+			continue
+		}
+		g := p.Graph(f)
+		isPeersMap := func(v *V) bool { return v != nil && v.IsField("deliveryRecord.peers") }
+		for _, cs := range p.Sites(f, false, "(*peerScore).markFirstMessageDelivery", "(*peerScore).markDuplicateMessageDelivery") {
+			if len(cs.Call.Args) < 1 {
+				continue
+			}
+			n++
+			kv := p.R(f).Val(cs.Call.Args[0])
+			if kv.Kind == "rangekey" && isPeersMap(kv.Args[0]) {
+				c.OK("R10.10", f.Name, "credited peer is on the delivery record ("+shortFn(cs.Name)+")", cs.Call, "taken from the record")
+				continue
+			}
+			inserts := func(nd ast.Node) bool {
+				for _, mi := range p.mapInserts(f) {
+					if contains(nd, mi.Stmt) && isPeersMap(p.R(f).Val(mi.Map)) && p.R(f).Val(mi.Key).Equal(kv) {
+						return true
+					}
+				}
+				return false
+			}
+			pt, _ := g.Locate(cs.Call)
+			before := g.DominatedByNode(pt, inserts)
+			after, _ := g.MustPass(pt, PassOpts{ExitOK: func(b *cfgBlock) bool {
+				// leaving through the "unexpected delivery trace" return (status already known) credits nothing further
+				return false
+			}}, inserts)
+			// paths that leave early without marking the message valid do not hand out the mesh credit for duplicates;
+			// accept the insertion on every path that reaches the normal end of the function
+			if !before && !after {
+				// retry: only paths on which the record is marked valid
+				valid := false
+				for _, s := range p.StoresTo2(f, "deliveryRecord.status") {
+					if sp, ok := g.Locate(s.Node); ok {
+						if okv, _ := g.MustPass(sp, PassOpts{}, inserts); okv {
+							valid = true
+						}
+					}
+				}
+				after = valid
+			}
+			c.Check(before || after, "R10.10", f.Name, "credited peer is on the delivery record ("+shortFn(cs.Name)+")", cs.Call, "inserted into drec.peers on every path", "the peer credited here is never entered into the message's delivery record: when it sends the same message again inside the delivery window, DuplicateMessage does not find it there and credits a second mesh delivery for one message")
+		}
+	}
+	if n < 3 {
+		c.Undecided("R10.10", "delivery credits", "inventory", nil, "fewer crediting calls than known: "+itoa(n))
+	}
+	c.Min["R10.10"] = 3
+}
+
+// R10.11 the scorer's periodic work: every ticker period that is a score parameter is positive for every accepted
+// parameter set — tested on every accepting path of the validator, or given a positive default there — since
+// time.NewTicker panics on a non-positive period in a goroutine nobody recovers.
+func checkTickerPeriods(c *RuleCtx) {
+	p := c.P
+	n := 0
+	for _, f := range p.All {
+		if f.File != "score.go" || f.Body == nil {
+			continue
+		}
+		for _, cs := range p.Sites(f, false, "time.NewTicker", "time.Tick", "time.NewTimer", "time.After") {
+			if len(cs.Call.Args) != 1 {
+				continue
+			}
+			av := p.R(f).Val(cs.Call.Args[0])
+			if av == nil || av.Kind != "field" || !strings.HasPrefix(av.Name, "PeerScoreParams.") {
+				continue
+			}
+			n++
+			fld := av.Name
+			isF := isFieldOf(fld)
+			vf := p.Fn("(*PeerScoreParams).validate")
+			if vf == nil {
+				c.Undecided("R10.11", f.Name, "validator", cs.Call, "(*PeerScoreParams).validate not found")
+				continue
+			}
+			vg := p.Graph(vf)
+			tooSmall := AtomCmp(fld+" < bound", isF, "<", func(v *V) bool { return v != nil && v.Kind != "field" })
+			notPos := AtomCmp(fld+" <= 0", isF, "<=", isZero)
+			cut := cutSet{}
+			for _, e := range append(vg.AtomEdges(tooSmall, false), vg.AtomEdges(notPos, false)...) {
+				cut[e] = true
+			}
+			defaulted := func(nd ast.Node) bool {
+				for _, s := range p.StoresTo2(vf, fld) {
+					if s.Kind == "assign" && contains(nd, s.Node) && s.RHS != nil {
+						if tv, ok := vf.Info().Types[s.RHS]; ok && tv.Value != nil {
+							return true
+						}
+					}
+				}
+				return false
+			}
+			k := 0
+			returnsIn(vf, func(r *ast.ReturnStmt) {
+				if len(r.Results) != 1 || !isNilV(p.R(vf).Val(r.Results[0])) {
+					return
+				}
+				k++
+				pt, _ := vg.Locate(r)
+				bad := vg.ReachableFrom(vg.Entry(), pt, cut, defaulted)
+				suffix := ""
+				if k > 1 {
+					suffix = "#" + itoa(k)
+				}
+				c.Check(!bad, "R10.11", vf.Name, fld+" positive on every accepting path"+suffix, r, "tested against a lower bound or given a constant default", "parameters are accepted on a path that neither tests "+fld+" against a lower bound nor assigns it a default; "+f.Name+" hands it to "+shortFn(cs.Name)+" at "+p.Pos(cs.Call)+", which panics on a non-positive period in the scorer's goroutine")
+			})
+		}
+	}
+	if n == 0 {
+		c.Undecided("R10.11", "score.go", "ticker periods", nil, "no ticker whose period is a score parameter found (anchor drift)")
+	}
+	c.Min["R10.11"] = 1
+	// R10.12 the topic parameter map may be nil in an accepted parameter set (no per-topic parameters yet): every
+	// store into it is behind a nil test or a make on every path
+	for _, s := range p.StoresTo("PeerScoreParams.Topics") {
+		if s.Kind != "elem-assign" || s.Fn.File != "score.go" {
+			continue
+		}
+		f := s.Fn
+		g := p.Graph(f)
+		pt, _ := g.Locate(s.Node)
+		isNil := AtomNil("params.Topics == nil", isFieldOf("PeerScoreParams.Topics"))
+		okTest, _ := p.DomAny(f, s.Node, AtomWant{isNil, false})
+		cut := cutSet{}
+		for _, e := range g.AtomEdges(isNil, false) {
+			cut[e] = true
+		}
+		made := func(nd ast.Node) bool {
+			for _, s2 := range p.StoresTo2(f, "PeerScoreParams.Topics") {
+				if s2.Kind == "assign" && contains(nd, s2.Node) {
+					return true
+				}
+			}
+			return false
+		}
+		ok := okTest || !g.ReachableFrom(g.Entry(), pt, cut, made)
+		c.Check(ok, "R10.12", f.Root().Name, "topic parameter map not nil when stored into", s.Node, "behind a nil test or a make", "params.Topics[topic] is assigned without a nil test: PeerScoreParams with no Topics map are accepted, and the first SetTopicScoreParams panics with `assignment to entry in nil map` inside the event loop")
+	}
+	c.Min["R10.12"] = 1
 }
